@@ -68,9 +68,10 @@ def cases(tier, seed):
         forms = ['pre']
         if not wide:
             forms = ['pre', FORMS[1 + i % 3]] if tier == 'quick' else FORMS
+        Kc = 2 if (c.get('kind') == 'mem_2w' and c.get('w', 0) > 8) else K     # two write ports x wide words: keep the array queries small
         for f in forms:
-            out.append(dict(c, K=K, form=f, sim='fast'))
-            out.append(dict(c, K=K, form=f, sim='compiled', init=['zero', 'ones', 'alt'][i % 3]))
+            out.append(dict(c, K=Kc, form=f, sim='fast'))
+            out.append(dict(c, K=Kc, form=f, sim='compiled', init=['zero', 'ones', 'alt'][i % 3]))
     # the memory model of the C back end rests on its hash-map helper text: checked by vf/chelper.py
     out.append({'fam': 'HELPER', 'k': 'chelper', 'limbs': 1, 'backend': 'compiled'})
     out.append({'fam': 'HELPER', 'k': 'chelper', 'limbs': 2, 'backend': 'compiled'})
